@@ -1,5 +1,9 @@
 ---------------------------- MODULE MC_CountCache ----------------------------
-EXTENDS CountCache
-\* tokens as bags: peroxide, acetone, methanol, water, ethane
+EXTENDS CountCache, TLC
+CONSTANT MaxCalls
+\* tokens as bags: peroxide, acetone, methanol, ethane
 MCTokens == [OO |-> [O |-> 2], acetone |-> [C |-> 3, O |-> 1], MeOH |-> [C |-> 1, O |-> 1], ethane |-> [C |-> 2]]
+TrueCount(t, a) == IF a \in DOMAIN t THEN t[a] ELSE 0
+MCTrue == [p \in (DOMAIN MCTokens) \X {"C", "O"} |-> TrueCount(MCTokens[p[1]], p[2])]
+Bounded == Len(hist) <= MaxCalls
 =============================================================================
